@@ -235,6 +235,15 @@ class Vec:
     def __getitem__(self, i):
         return self.v[i]
 
+    def __setitem__(self, i, val):
+        if isinstance(i, slice):
+            vals = self._other(val)
+            idx = range(*i.indices(len(self.v)))
+            for k, x in zip(idx, [vals[j] for j in idx]):
+                self.v[k] = x
+        else:
+            self.v[i] = val
+
     def _other(self, o):
         if isinstance(o, Vec):
             if len(o.v) != len(self.v):
